@@ -342,6 +342,12 @@ func evalT(t *Term, env map[string]*big.Rat) *big.Rat {
 			s.Mul(s, evalT(a, env))
 		}
 		return s
+	case "/":
+		d := evalT(t.Args[0], env)
+		if d.Sign() == 0 {
+			panic("evalT: division by zero")
+		}
+		return new(big.Rat).Inv(d)
 	case "conv":
 		return evalT(t.Args[0], env)
 	case "call":
